@@ -234,7 +234,13 @@ func (a *AsStruct) SQL() string { return "AS STRUCT" }
 
 func (a *AsValue) SQL() string { return "AS VALUE" }
 
-func (a *AsTypeName) SQL() string { return "AS " + a.TypeName.SQL() }
+func (a *AsTypeName) SQL() string {
+	// A type named VALUE must stay quoted, otherwise it is read back as SELECT AS VALUE.
+	if len(a.TypeName.Path) == 1 && strings.EqualFold(a.TypeName.Path[0].Name, "VALUE") {
+		return "AS `" + a.TypeName.Path[0].Name + "`"
+	}
+	return "AS " + a.TypeName.SQL()
+}
 
 func (f *FromQuery) SQL() string {
 	return f.From.SQL()
